@@ -148,6 +148,9 @@ class Strict:
                 tt = _overrunning_type(e.detail) if e.reason == 'overrun' else None
                 if tt is not None and any(table[i].t == tt and table[i].kind == 'uint' for i in range(pos, len(table))):
                     raise Reject('overrun-uint', e.detail)
+                # ... and a NAME that runs past its parent (Name.decode compares the announced length with what is there)
+                if tt is not None and any(table[i].t == tt and table[i].kind == 'name' for i in range(pos, len(table))):
+                    raise Reject('overrun-name', e.detail)
                 raise
             idx = None
             for i in range(pos, len(table)):
@@ -353,6 +356,7 @@ def run_lib(decoder, wire):
 REJECT_KEYS = {
     'overrun': 'C07:nested-length-overruns-parent',
     'overrun-uint': 'C07:nested-length-overruns-parent:integer-read-from-fewer-bytes',
+    'overrun-name': 'C07:nested-length-overruns-parent:name-read-from-fewer-bytes',
     'component-overruns-name': 'C07:name-component-overruns-name',
     'tl-truncated': 'C07:truncated-element-header-accepted',
     'critical-low-even': 'C07:even-type-below-32-not-treated-as-critical',
@@ -732,6 +736,16 @@ def mutations(root):
             r = root.clone()
             r.at(p).dlen = d
             yield f'len{d:+d}@{ps}', r.ser()
+        # 1b. the length field claims exactly the next 1..k siblings as part of this element (ancestors untouched: the siblings
+        #     tile the parent, so everything is still "whole elements" - only this element runs over its own end)
+        if p:
+            sibs = root.at(p[:-1]).kids[p[-1] + 1:]
+            extra = 0
+            for j, sb in enumerate(sibs):
+                extra += len(sb.ser())
+                r = root.clone()
+                r.at(p).dlen = extra
+                yield f'swallow{j + 1}@{ps}', r.ser()
         # 2. non-shortest forms of T and L
         for form in (3, 5, 9):
             r = root.clone()
